@@ -12,6 +12,7 @@
 -/
 import PdshVerif.Exec.Lemmas
 import PdshVerif.Exec.EndToEnd
+import PdshVerif.Exec.Ssh
 import PdshVerif.Opt.RcmdLemmas
 
 namespace PdshVerif.C09
@@ -602,6 +603,50 @@ theorem rsh_end_to_end (cfg : Cfg) (words : List Word) (targets : List Str) (ls 
   refine ⟨hi', ?_⟩
   rw [hg]
   exact (wire_request_exact port cfg.luser _ (joinCmd argv) hlu hru (joinCmd_nul_free argv hargv)).1
+
+/-! ## the ssh transport (src/modules/sshcmd.c; not built in the verified configuration) -/
+
+/-- ssh is started with argv = "ssh", then the template (PDSH_SSH_ARGS[_APPEND] split at blanks and
+    completed with "-l%u" / "%h" as `fixup` says), then the command words -- every one of them with
+    %h %u %n %% replaced and everything else byte for byte: quotes, backslashes (also trailing ones)
+    and unknown %x sequences are not touched -/
+theorem ssh_argv_exact (e : Env) (append args dshpath : Option Ssh.Str) (luser : Ssh.Str) (pcp : Bool)
+    (words : List Ssh.Str) (cmd tail : Ssh.Str)
+    (hn : ∀ a ∈ Ssh.sshArgv append args dshpath luser e.user pcp words cmd, nul ∉ a) :
+    Ssh.sshCall repaired e append args dshpath luser pcp words cmd tail =
+      some ("ssh".toList :: (Ssh.sshArgv append args dshpath luser e.user pcp words cmd).map (expected e)) := by
+  obtain ⟨l, hl, hv, _⟩ := argv_length_preserved e "ssh".toList _ tail hn
+  simp only [Ssh.sshCall, hl, Option.map_some, hv, expectedArgv]
+
+/-- ... hence command words without '%' reach ssh verbatim, whatever else they contain -/
+theorem ssh_command_verbatim (e : Env) (append args dshpath : Option Ssh.Str) (luser : Ssh.Str)
+    (w0 : Ssh.Str) (rest : List Ssh.Str) (cmd : Ssh.Str) (hp : ∀ w ∈ w0 :: rest, '%' ∉ w) :
+    (Ssh.sshArgv append args dshpath luser e.user false (w0 :: rest) cmd).map (expected e) =
+      (Ssh.fixup (Ssh.template append args dshpath) (luser != e.user)).map (expected e) ++ (w0 :: rest) := by
+  have : (w0 :: rest).map (expected e) = w0 :: rest := by
+    have gen : ∀ (l : List Ssh.Str), (∀ w ∈ l, '%' ∉ w) → l.map (expected e) = l := by
+      intro l
+      induction l with
+      | nil => intro _; rfl
+      | cons a r ih =>
+        intro h
+        simp only [List.map_cons]
+        rw [no_percent_id e a (h a (by simp)), ih (fun w hw => h w (by simp [hw]))]
+    exact gen _ hp
+  simp only [Ssh.sshArgv, Bool.false_or, List.isEmpty_cons, Bool.false_eq_true, if_false, List.map_append, this]
+
+/-- the default template "-2 -a -x %h" for a remote user that differs from the local one -/
+theorem ssh_default_fixup :
+    Ssh.fixup (["-2", "-a", "-x", "%h"].map String.toList) true =
+      ["-2", "-a", "-x", "-l%u", "%h"].map String.toList := by
+  decide
+
+/-- a command word is NOT exempt from the substitution: `pdsh -R ssh -w n1 -l bob echo %h` makes ssh
+    run `echo n1` (finding F09-SSHPCT; `echo %%h` is the way to say %h) -/
+theorem ssh_percent_witness :
+    (["echo", "%h", "100%%"].map String.toList).map (expected ⟨"n1".toList, "bob".toList, 0⟩) =
+      ["echo", "n1", "100%"].map String.toList := by
+  decide
 
 /-- the hypotheses of the theorems above are satisfiable by a non-trivial run: two overlapping
     annotated words, -l, and a default from the rank list -/
